@@ -288,6 +288,7 @@ pub fn exec_oracle(kind: &str, fields: &[&str]) -> String {
             "oracle pass".to_string()
         }
         "S_C19U" => oracle_c19u(fields),
+        "S_C19K" => oracle_c19k(fields),
         "S_C19T" => {
             // a tuple type of a user (any dimension): the accessors and the arithmetic of the trait's defaults are
             // the element-wise definitions
@@ -1545,6 +1546,37 @@ fn oracle_c02(fields: &[&str]) -> String {
             for (a, b) in c3.iter().zip(ref4.iter()) {
                 if !bits_eq(&Coor4D([a[0], a[1], a[2], 0.0]), b, 3) {
                     return format!("oracle FAIL Vec<Coor3D> gives {:?} but the 4D tuple gives {} ({def})", a.0, dump_data(&[*b]));
+                }
+            }
+        }
+        // operators that never look at the epoch: a plane or a 3D container gives what the 4D tuple with any finite
+        // epoch gives - the epoch a container cannot store is no reason to treat its tuples differently
+        {
+            let name = def.split_whitespace().find(|w| !w.contains('=') && *w != "inv").unwrap_or("");
+            if ["unitconvert", "tmerc", "utm", "merc", "webmerc", "lcc", "laea", "omerc", "somerc", "btmerc", "butm", "latitude", "noop", "addone", "curvature", "gravity"].contains(&name) {
+                let mut ref4: Vec<Coor4D> = data.iter().map(|c| Coor4D([c[0], c[1], 0.0, 2000.0])).collect();
+                let nref = ctx.apply(op, d(&dir), &mut ref4).unwrap_or(usize::MAX);
+                let mut c2: Vec<Coor2D> = data.iter().map(|c| Coor2D([c[0], c[1]])).collect();
+                let n2 = ctx.apply(op, d(&dir), &mut c2).unwrap_or(usize::MAX);
+                if n2 != nref {
+                    return format!("oracle FAIL Vec<Coor2D> counts {n2}, the same tuples as 4D with an epoch {nref} ({def})");
+                }
+                for (a, b) in c2.iter().zip(ref4.iter()) {
+                    if !bits_eq(&Coor4D([a[0], a[1], 0.0, 0.0]), b, 2) {
+                        return format!("oracle FAIL Vec<Coor2D> gives {:?} but the 4D tuple with an epoch gives {} ({def})", a.0, dump_data(&[*b]));
+                    }
+                }
+                let mut ref4: Vec<Coor4D> = data.iter().map(|c| Coor4D([c[0], c[1], c[2], 2000.0])).collect();
+                let nref = ctx.apply(op, d(&dir), &mut ref4).unwrap_or(usize::MAX);
+                let mut c3: Vec<Coor3D> = data.iter().map(|c| Coor3D([c[0], c[1], c[2]])).collect();
+                let n3 = ctx.apply(op, d(&dir), &mut c3).unwrap_or(usize::MAX);
+                if n3 != nref {
+                    return format!("oracle FAIL Vec<Coor3D> counts {n3}, the same tuples as 4D with an epoch {nref} ({def})");
+                }
+                for (a, b) in c3.iter().zip(ref4.iter()) {
+                    if !bits_eq(&Coor4D([a[0], a[1], a[2], 0.0]), b, 3) {
+                        return format!("oracle FAIL Vec<Coor3D> gives {:?} but the 4D tuple with an epoch gives {} ({def})", a.0, dump_data(&[*b]));
+                    }
                 }
             }
         }
@@ -3924,6 +3956,11 @@ fn oracle_c14(fields: &[&str]) -> String {
                         // the height correction conventions of the operator are its own: agreement on the
                         // zero-height value is what both routes share
                         let _ = want;
+                        // (one tuple on its own and the same tuple among others: the same bits)
+                        let (_, alone) = tryrun!(run_kind("default", &def, true, &[*p]));
+                        if alone[0][0].to_bits() != f[k][0].to_bits() {
+                            return format!("oracle FAIL {def} at latitude {} height {}: {} among other tuples, {} on its own", p[0], p[1], f[k][0], alone[0][0]);
+                        }
                         let (_, z) = tryrun!(run_kind("default", &format!("{def} zero-height"), true, &[*p]));
                         let want0 = match sub {
                             "cassinis" => e.cassinis_gravity_1930(lat),
@@ -4692,6 +4729,45 @@ fn oracle_c19u(fields: &[&str]) -> String {
     let s3 = c3.to_arcsec();
     if !same(s3[2], c3[2]) || !same(s3[0], sec[0]) {
         return format!("oracle FAIL Coor3D::to_arcsec of ({}, {}, {}) gives {:?}", v[0], v[1], v[2], s3.0);
+    }
+    "oracle pass".to_string()
+}
+
+/// the constructors of the four tuple types: the sexagesimal ones are the degree one behind the scalar
+/// conversions (themselves compared with the model), `gis` is `geo` with the first two arguments exchanged, `raw`
+/// takes the elements as they are - for every type alike
+fn oracle_c19k(fields: &[&str]) -> String {
+    let v: Vec<f64> = fields[0].split(',').map(parse_f).collect();
+    let (lat, lon, h, t) = (v[0], v[1], v[2], v[3]);
+    let same = |a: &[f64], b: &[f64]| a.len() == b.len() && a.iter().zip(b).all(|(x, y)| x.to_bits() == y.to_bits() || (x.is_nan() && y.is_nan()));
+    let (la_dm, lo_dm) = (angular::iso_dm_to_dd(lat), angular::iso_dm_to_dd(lon));
+    let (la_dms, lo_dms) = (angular::iso_dms_to_dd(lat), angular::iso_dms_to_dd(lon));
+    let checks: Vec<(&str, Vec<f64>, Vec<f64>)> = vec![
+        ("Coor4D::iso_dm", Coor4D::iso_dm(lat, lon, h, t).0.to_vec(), Coor4D::geo(la_dm, lo_dm, h, t).0.to_vec()),
+        ("Coor4D::iso_dms", Coor4D::iso_dms(lat, lon, h, t).0.to_vec(), Coor4D::geo(la_dms, lo_dms, h, t).0.to_vec()),
+        ("Coor3D::iso_dm", Coor3D::iso_dm(lat, lon, h).0.to_vec(), Coor3D::geo(la_dm, lo_dm, h).0.to_vec()),
+        ("Coor3D::iso_dms", Coor3D::iso_dms(lat, lon, h).0.to_vec(), Coor3D::geo(la_dms, lo_dms, h).0.to_vec()),
+        ("Coor2D::iso_dm", Coor2D::iso_dm(lat, lon).0.to_vec(), Coor2D::geo(la_dm, lo_dm).0.to_vec()),
+        ("Coor2D::iso_dms", Coor2D::iso_dms(lat, lon).0.to_vec(), Coor2D::geo(la_dms, lo_dms).0.to_vec()),
+        ("Coor32::iso_dm", Coor32::iso_dm(lat, lon).0.iter().map(|x| *x as f64).collect(), Coor32::geo(la_dm, lo_dm).0.iter().map(|x| *x as f64).collect()),
+        ("Coor32::iso_dms", Coor32::iso_dms(lat, lon).0.iter().map(|x| *x as f64).collect(), Coor32::geo(la_dms, lo_dms).0.iter().map(|x| *x as f64).collect()),
+        ("Coor4D::gis", Coor4D::gis(lon, lat, h, t).0.to_vec(), Coor4D::geo(lat, lon, h, t).0.to_vec()),
+        ("Coor3D::gis", Coor3D::gis(lon, lat, h).0.to_vec(), Coor3D::geo(lat, lon, h).0.to_vec()),
+        ("Coor2D::gis", Coor2D::gis(lon, lat).0.to_vec(), Coor2D::geo(lat, lon).0.to_vec()),
+        ("Coor32::gis", Coor32::gis(lon, lat).0.iter().map(|x| *x as f64).collect(), Coor32::geo(lat, lon).0.iter().map(|x| *x as f64).collect()),
+        ("Coor4D::geo", Coor4D::geo(lat, lon, h, t).0.to_vec(), vec![lon.to_radians(), lat.to_radians(), h, t]),
+        ("Coor3D::geo", Coor3D::geo(lat, lon, h).0.to_vec(), vec![lon.to_radians(), lat.to_radians(), h]),
+        ("Coor2D::geo", Coor2D::geo(lat, lon).0.to_vec(), vec![lon.to_radians(), lat.to_radians()]),
+        ("Coor32::geo", Coor32::geo(lat, lon).0.iter().map(|x| *x as f64).collect(), vec![lon.to_radians() as f32 as f64, lat.to_radians() as f32 as f64]),
+        ("Coor4D::raw", Coor4D::raw(lat, lon, h, t).0.to_vec(), vec![lat, lon, h, t]),
+        ("Coor3D::raw", Coor3D::raw(lat, lon, h).0.to_vec(), vec![lat, lon, h]),
+        ("Coor2D::raw", Coor2D::raw(lat, lon).0.to_vec(), vec![lat, lon]),
+        ("Coor32::raw", Coor32::raw(lat, lon).0.iter().map(|x| *x as f64).collect(), vec![lat as f32 as f64, lon as f32 as f64]),
+    ];
+    for (name, got, want) in checks {
+        if !same(&got, &want) {
+            return format!("oracle FAIL {name}({lat}, {lon}, ..) gives {got:?}, the scalar conversions and the plain constructor {want:?}");
+        }
     }
     "oracle pass".to_string()
 }
